@@ -72,6 +72,11 @@ func (g *shapeGen) plainType() string {
 		return rapid.SampledFrom([]string{"[0]int", "struct{}"}).Draw(g.t, "zero")
 	case 3:
 		return rapid.SampledFrom([]string{"[33]uint64", "[2]string", "[5]int16", "ut.Pt", "complex128"}).Draw(g.t, "big")
+	case 4:
+		if rapid.Bool().Draw(g.t, "twins") {
+			// types that print alike but are different (same package name, other import path)
+			return rapid.SampledFrom([]string{"*ut.Pt", "*altut.Pt", "altut.Pt", "ut.Pt", "[]altut.MyStr"}).Draw(g.t, "twin")
+		}
 	}
 	return Universe[rapid.IntRange(0, len(Universe)-1).Draw(g.t, "utype")].Expr
 }
